@@ -16,6 +16,7 @@ class WSSession:
                  tls: bool = False, h2_settings: Optional[Dict[int, int]] = None,
                  direct: bool = False) -> None:
         self.h2_settings = h2_settings
+        self.ack_policy = "immediate"  # HTTP/2: "manual" withholds flow-control credit
         self.direct = direct  # HTTP/2: write straight to the connection (no segmentation)
         self.env = env
         self.carrier = carrier
@@ -53,10 +54,10 @@ class WSSession:
             return self.status
         self.conn = env.connect(alpn="h2" if self.tls else None, tls=self.tls)
         if self.direct:
-            self.client = H2Client(self.conn, self.h2_settings)
+            self.client = H2Client(self.conn, self.h2_settings, ack_policy=self.ack_policy)
         else:
             self.sender = SegSender(self.conn)
-            self.client = H2Client(self.sender, self.h2_settings)
+            self.client = H2Client(self.sender, self.h2_settings, ack_policy=self.ack_policy)
         self.client.start()
         await self._flush()
         self.client.pump()
